@@ -322,6 +322,33 @@ fn run_op(h: &Handle, op: &Value, ctx: &Ctx) -> Outcome {
                 Err(e) => err_outcome(e),
             }
         }
+        "set" | "put" if op["srclink"].is_string() => {
+            // The value handed to the cache is ANOTHER HARD LINK to an existing file (typically the entry cached under the same key:
+            // a zero-copy refresh): rename(2) of two links to one inode is a successful no-op, the source must be consumed all the same.
+            let from = PathBuf::from(op["srclink"].as_str().unwrap());
+            let dir = PathBuf::from(op["srcdir"].as_str().unwrap_or("/nonexistent"));
+            let path = dir.join(format!("relink-{}-{}", pid, op["key"].as_str().unwrap_or("k")));
+            if let Err(e) = std::fs::hard_link(&from, &path) {
+                let mut o = err_outcome(e);
+                o.extra.insert("stage".into(), json!("relink"));
+                return o;
+            }
+            phase("lib");
+            let r = match (h, api) {
+                (Handle::Plain(c), "set") => c.set(name, &path),
+                (Handle::Plain(c), _) => c.put(name, &path),
+                (Handle::Sharded(c), "set") => c.set(key, &path),
+                (Handle::Sharded(c), _) => c.put(key, &path),
+                (Handle::Stack(c), "set") => c.set(key, &path),
+                (Handle::Stack(c), _) => c.put(key, &path),
+                _ => Err(std::io::Error::new(std::io::ErrorKind::Other, "n/a")),
+            };
+            phase("app");
+            let mut o = from_unit(r);
+            o.extra.insert("src_exists".into(), json!(path.symlink_metadata().is_ok()));
+            let _ = std::fs::remove_file(&path);
+            o
+        }
         "set" | "put" => {
             // Application side: make the value file.
             match h {
